@@ -1,9 +1,10 @@
 ---- MODULE Limiter ----
 \* flow::limiter_node (flow_graph.h:2140-2410): my_threshold/my_count/my_tries/my_future_decrement under my_mutex,
 \* predecessor = a queue_node that supports reserve/consume/release, successor = a sink that accepts everything and
-\* later sends decrement(1) messages. Each critical section is one action; forward_task spans three sections.
+\* later sends decrement messages (one slot each, or up to MaxDelta slots at once through an integral decrementer). Each critical section is one action; forward_task spans three sections.
 EXTENDS Integers, Sequences, FiniteSets, TLC
-CONSTANTS Threshold, NMsgs, Fwd     \* Fwd: set of concurrent forwarder ids (graph tasks running forward_task)
+CONSTANTS Threshold, NMsgs, Fwd,    \* Fwd: set of concurrent forwarder ids (graph tasks running forward_task)
+          MaxDelta                  \* an integral decrementer may give back up to MaxDelta slots in one message (continue_msg: 1)
 VARIABLES count, tries, future, q, qreserved, inflight, delivered, decremented, pendingDec, fpc, fval, fres, puts
 vars == <<count, tries, future, q, qreserved, inflight, delivered, decremented, pendingDec, fpc, fval, fres, puts>>
 Init == /\ count = 0 /\ tries = 0 /\ future = 0
@@ -46,12 +47,16 @@ F4(f) == /\ fpc[f] = "count"
 F5(f) == /\ fpc[f] = "fail"
          /\ tries' = tries - 1 /\ fpc' = [fpc EXCEPT ![f] = "idle"]
          /\ UNCHANGED <<count, future, q, qreserved, inflight, delivered, decremented, pendingDec, fval, fres, puts>>
-\* the successor (or anyone) sends decrement(1): decrement_counter(1)
-Dec == /\ pendingDec > 0 /\ pendingDec' = pendingDec - 1 /\ decremented' = decremented + 1
-       /\ IF 1 > count
-          THEN /\ future' = IF tries > 0 THEN future + (1 - count) ELSE future
+\* the successor (or anyone) sends decrement(d) for d messages it has received: decrement_counter(d).  A delta above the threshold is clamped; a delta above
+\* my_count zeroes the counter and books the rest against the puts that are still in flight (my_future_decrement), if there are any
+Min(a, b) == IF a < b THEN a ELSE b
+Dec == \E d \in 1..MaxDelta :
+       /\ pendingDec >= d /\ pendingDec' = pendingDec - d /\ decremented' = decremented + d
+       /\ LET dd == Min(d, Threshold) IN
+          IF dd > count
+          THEN /\ future' = IF tries > 0 THEN future + (dd - count) ELSE future
                /\ count' = 0
-          ELSE count' = count - 1 /\ UNCHANGED future
+          ELSE count' = count - dd /\ UNCHANGED future
        /\ UNCHANGED <<tries, q, qreserved, inflight, delivered, fpc, fval, fres, puts>>
 Next == Put \/ Dec \/ \E f \in Fwd : F1(f) \/ F2(f) \/ F3(f) \/ F4(f) \/ F5(f)
 Spec == Init /\ [][Next]_vars
